@@ -1154,6 +1154,9 @@ func renderCalls(src string, viaHost bool) string {
 				sb.WriteString(name + "(" + args + ")")
 			}
 		} else {
+			// (in script every repetition passes a fresh argument array: a variadic callee called with a spread array
+			// receives that very array, so what it writes into its parameter would otherwise reach the next repetition,
+			// which an Invoker, copying its arguments, never shows)
 			n, name, args := parts[0], parts[1], parts[2]
 			if viaHost {
 				if args == "" {
@@ -1162,7 +1165,7 @@ func renderCalls(src string, viaHost bool) string {
 					sb.WriteString("callrep(" + name + ", " + n + ", " + args + ")")
 				}
 			} else {
-				sb.WriteString("(func(...cra) { crr := undefined; for cri := 0; cri < " + n + "; cri++ { crr = " + name + "(...cra) }; return crr })(" + args + ")")
+				sb.WriteString("(func(...cra) { crr := undefined; for cri := 0; cri < " + n + "; cri++ { crr = " + name + "(...append([], ...cra)) }; return crr })(" + args + ")")
 			}
 		}
 		i = j
